@@ -39,7 +39,10 @@ def concretise(c, rnd):
         d = rnd.choice([f'dwh="{v}"', f'dw="{v.split()[0]}" dh="{v.split()[1]}"'])
         pos = 'cxy="10 6"' if (c["anchor"] == "c" and rnd.random() < 0.5) else \
             ('xy="10 6"' + ("" if c["anchor"] == "tl" else f' xy-loc="{c["anchor"]}"'))
-        return f'<svg><{k} id="s" {pos} wh="2 4" {d}/></svg>'
+        size = 'wh="2 4"'
+        if k == "ellipse":
+            size = rnd.choice(['wh="2 4"', 'rxy="1 2"', 'rx="1" ry="2"', 'width="2" height="4"'])
+        return f'<svg><{k} id="s" {pos} {size} {d}/></svg>'
     if f == "linepts":
         r1 = geom.ref_element(rnd.choice(["rect", "ellipse", "box"]), c["ref"], "r")
         r2 = geom.ref_element(rnd.choice(["rect", "ellipse", "line"]), c["ref2"], "q", rnd)
